@@ -197,8 +197,11 @@ def c_expected(e):
     return "(EOne %s)" % cstr(e)
 
 
-def c_call(call):
-    fn = None if call["func"] is None else c_opaque(call["func"], FUNC_TABLE[call["func"]])
+def c_call(call, func_table=None, regex_table=None):
+    """func_table / regex_table: truth tables of the opaque matchers over the universe in use (default: the 6 operations of RAW)"""
+    func_table = FUNC_TABLE if func_table is None else func_table
+    regex_table = REGEX_TABLE if regex_table is None else regex_table
+    fn = None if call["func"] is None else c_opaque(call["func"], func_table[call["func"]])
     crit = []
     for attr in ATTRS:
         e, r = call["crit"].get(attr, [None, None])
@@ -206,7 +209,7 @@ def c_call(call):
             ctuple(
                 ATTR_COQ[attr],
                 copt(None if e is None else c_expected(e), "expected"),
-                copt(None if r is None else c_opaque(REGEX_BASE + r, REGEX_TABLE[r]), "opaque"),
+                copt(None if r is None else c_opaque(REGEX_BASE + r, regex_table[r]), "opaque"),
             )
         )
     return "{| c_func := %s; c_crit := %s |}" % (copt(fn, "opaque"), clist(crit))
@@ -1607,7 +1610,8 @@ def run(chk: core.Check):
         "correspondence harness harness/props/c19.py (encoders, Coq output parser, canonicalisers, generators, the recording "
         "FakeStrategy that stands in for a Hypothesis strategy in apply_to_container)",
         "user predicates and compiled regexes are opaque matchers given by their truth table over the 6 operations of the harness "
-        "schema (table computed by the harness with re.search / the function itself)",
+        "schema, in the several-schemas stage over the 15 operations of its three documents (table computed by the harness with re.search / "
+        "a reading of the raw document)",
     ]
     chk.assumptions = [
         "Hypothesis applies .filter/.map/.flatmap callbacks of a strategy to every drawn value (oracle stage)",
@@ -1634,7 +1638,15 @@ def run(chk: core.Check):
         "hook name or another name of its kind, 45% without filters), unregister / unregister_all in between; after EVERY event every dispatcher is "
         "asked (apply_to_container with a recording strategy) for all 6 operations x 6 targets, real data generation at the end; expected = each "
         "registration fires where the filters written in its own expression say (mismatches where the function object was given another chain by a "
-        "later expression = region function_registered_twice, finding C19-F5)"
+        "later expression = region function_registered_twice, finding C19-F5).  Several-schemas stage: 4 fixed + generated histories on 2-3 REAL schema "
+        "objects whose documents share labels (GET /users, POST /users, ...) but differ in tags / operationId / deprecated / requestBody: 1-4 hook "
+        "registrations (global 45%, test, schema.hooks, schema.hook; all forms) and 0-3 auth providers (global / schema / test storage, register / "
+        "set_from_requests) with 0-3 apply_to / skip_for calls by name, method, path, tag, operation_id, *_regex and matcher functions (deprecated, "
+        "tagged, has body), then 3-8 evaluations (75%: one label from all schemas that have it, shuffled order, first one often repeated; with / "
+        "without the test dispatcher and storage), a quarter with registrations / unregistrations between two evaluation runs; each evaluation = "
+        "apply_to_all_dispatchers for 5 containers + as_strategy case level, real Hypothesis draws (hooks record the operation of their context, "
+        "cases their credentials) and auths.set_on_case; non-trivial = two different operations with one label evaluated and a filtered global / "
+        "test extension present"
     )
     chk.proofs(["Common", "C19"])
     rng = chk.rng
@@ -1800,6 +1812,12 @@ def run(chk: core.Check):
         "histories": len(ru_runs), "fixed": len(REUSE_FIXED), "observed_states": ru_steps, "oracle_wrong_histories": ru_wrong,
         "mismatches_inside_listed_regions": ru_inside, "cells_compared_with_per_registration_spec": ru_spec_cells, "model_disagrees": ru_disagree,
     }
+    # ---- evaluation sequences over the operations of 2-3 real schema objects that SHARE labels (harness/props/c19_multi.py): real
+    #      dispatch, real data generation and auth application vs the property read directly (oracle), Model_C19.eval_trace /
+    #      auth_trace with match_plain (C19_filter_evaluation_pure, C19_auth_evaluation_pure) and the sentinel match_cached
+    from harness.props import c19_multi
+
+    c19_multi.stage(chk, boost=10 if chk.broken and not chk.failures else 1)
     # a concrete failing input is what the tenfold search budget is for; once there is one, the normal budget will do
     boost = 10 if chk.broken and not chk.failures else 1
 
@@ -1951,6 +1969,10 @@ def replay(payload) -> int:
             for m, region in bad:
                 print(f"  [{region or 'VIOLATION'}] {m}")
             print("->", "FAILS" if any(region is None for _, region in bad) else "passes (outside the listed regions)")
+        if isinstance(inp, dict) and "multi_schema_history" in inp:
+            from harness.props import c19_multi
+
+            c19_multi.replay_one(inp["multi_schema_history"])
         if isinstance(inp, dict) and "events" in inp and "reuse_history" not in inp:
             real = interleaved_run(inp["events"])
             expected = interleaved_expected(inp["events"])
